@@ -261,6 +261,24 @@ def answer (A : Answerer) (st : St) (toks : List String) : Option String := do
     let i ← s.toNat?
     let sg ← st.segs[i]?
     pure (layoutDV (st.merged.getD i false) sg (← parseBytes f))
+  | "pure" :: fn :: args =>
+    -- the model's arithmetic definitions (bridged by proof to the generated renderings of the Go
+    -- functions) evaluated on concrete arguments; compared with the compiled Go functions
+    let a ← args.mapM (·.toNat?)
+    let b2n := fun (b : Bool) => if b then 1 else 0
+    match fn, a with
+    | "getChunkSize", [m, c, d] =>
+      (match Model.getChunkSize m c d with
+       | .ok v => pure s!"{v}"
+       | _ => pure "err")
+    | "encodeFreqHasLocs", [f, h] => pure s!"{Model.encodeFreqHasLocs f (h != 0)}"
+    | "decodeFreqHasLocs", [v] => let r := Model.decodeFreqHasLocs v; pure s!"{r.1} {b2n r.2}"
+    | "fSTValEncode1Hit", [dn, n] => pure s!"{Model.encode1Hit dn n}"
+    | "fSTValDecode1Hit", [v] => let r := Model.decode1Hit v; pure s!"{r.1} {r.2}"
+    | "under32Bits", [x] => pure s!"{b2n (Model.under32Bits x)}"
+    | "numUvarintBytes", [x] => pure s!"{Model.numUvarintBytes x}"
+    | "is1Hit", [v] => pure s!"{b2n (Model.is1Hit v)}"
+    | _, _ => none
   | ["bufio", size, k, lens] =>
     -- the bufio/countHashWriter/Merger.WriteTo model against a sink that accepts k bytes then fails
     let size ← size.toNat?
